@@ -12,6 +12,8 @@ EXTENDS Integers, Sequences, FiniteSets, TLC, Json
 CONSTANTS Buckets,      \* {"m", "d"}: an in-memory and an on-disk bucket
           K,            \* physical clock readings 0..K
           MaxSteps, SeedOnOpen,
+          SeedFromBucketMark,   \* TRUE (design): an opened bucket seeds the clock from its bucket-wide mark (FALSE: from the
+                                \* marks of the collections that still exist)
           MetaKeepsMark \* TRUE (design): a write with a caller-chosen CAS never lowers the bucket's persisted mark
 
 VARIABLES highest,      \* the clock's memory (highest value issued or seen)
@@ -20,27 +22,37 @@ VARIABLES highest,      \* the clock's memory (highest value issued or seen)
           persisted,    \* [Buckets -> last CAS committed]  (lost for "m" on restart)
           issuedEpoch,  \* sequence of the values issued since the process started
           issuedBy,     \* [Buckets -> sequence of the values ever issued through this bucket (survives restarts for "d")]
-          cmark,        \* [Buckets -> mark of a second collection, written only with caller-chosen CAS values]
+          cmark,        \* [Buckets -> mark of a second collection (regular and caller-chosen writes; 0 after it was dropped)]
+          dmark,        \* [Buckets -> mark of the default collection]
           steps, hist
-vars == <<highest, phys, isopen, persisted, issuedEpoch, issuedBy, cmark, steps, hist>>
+vars == <<highest, phys, isopen, persisted, issuedEpoch, issuedBy, cmark, dmark, steps, hist>>
 
 Init == /\ highest = 0 /\ phys = 0
         /\ isopen = [b \in Buckets |-> TRUE]
         /\ persisted = [b \in Buckets |-> 0]
         /\ issuedEpoch = <<>> /\ issuedBy = [b \in Buckets |-> <<>>]
-        /\ cmark = [b \in Buckets |-> 0]
+        /\ cmark = [b \in Buckets |-> 0] /\ dmark = [b \in Buckets |-> 0]
         /\ steps = 0 /\ hist = <<>>
 
 Clock(v) == /\ phys' = v
-            /\ UNCHANGED <<highest, isopen, persisted, issuedEpoch, issuedBy, cmark>>
-Now(b) ==
+            /\ UNCHANGED <<highest, isopen, persisted, issuedEpoch, issuedBy, cmark, dmark>>
+(* a regular write into the default collection (c1 = FALSE) or into the second one *)
+NowIn(b, c1) ==
     /\ isopen[b]
     /\ LET n == IF highest >= phys THEN highest + 1 ELSE phys IN
        /\ highest' = n
        /\ persisted' = [persisted EXCEPT ![b] = n]
        /\ issuedEpoch' = Append(issuedEpoch, n)
        /\ issuedBy' = [issuedBy EXCEPT ![b] = Append(@, n)]
-    /\ UNCHANGED <<phys, isopen, cmark>>
+       /\ cmark' = IF c1 THEN [cmark EXCEPT ![b] = n] ELSE cmark
+       /\ dmark' = IF c1 THEN dmark ELSE [dmark EXCEPT ![b] = n]
+    /\ UNCHANGED <<phys, isopen>>
+Now(b) == NowIn(b, FALSE)
+(* the second collection is dropped: its mark goes with it *)
+DropC1(b) ==
+    /\ isopen[b]
+    /\ cmark' = [cmark EXCEPT ![b] = 0]
+    /\ UNCHANGED <<highest, phys, isopen, persisted, issuedEpoch, issuedBy, dmark>>
 (* SetWithMeta / DeleteWithMeta into another collection of the bucket with a caller-chosen CAS just below (lo) or
    above the bucket's mark: the collection's mark follows it, the bucket's mark never falls, the clock learns of it *)
 Meta(b, lo) ==
@@ -51,7 +63,7 @@ Meta(b, lo) ==
           ELSE /\ cmark' = [cmark EXCEPT ![b] = v]
                /\ persisted' = [persisted EXCEPT ![b] = IF MetaKeepsMark /\ @ > v THEN @ ELSE v]
        /\ highest' = IF v > cmark[b] /\ v > highest THEN v ELSE highest    \* the clock learns of a CAS above the collection's mark
-    /\ UNCHANGED <<phys, isopen, issuedEpoch, issuedBy>>
+    /\ UNCHANGED <<phys, isopen, issuedEpoch, issuedBy, dmark>>
 (* the process ends (all handles closed or the process killed); a new process starts with an empty clock *)
 Restart ==
     /\ highest' = 0
@@ -59,24 +71,27 @@ Restart ==
     /\ persisted' = [persisted EXCEPT !["m"] = 0]
     /\ issuedEpoch' = <<>>
     /\ issuedBy' = [issuedBy EXCEPT !["m"] = <<>>]
-    /\ cmark' = [cmark EXCEPT !["m"] = 0]
+    /\ cmark' = [cmark EXCEPT !["m"] = 0] /\ dmark' = [dmark EXCEPT !["m"] = 0]
     /\ UNCHANGED phys
 Open(b) ==
     /\ ~isopen[b]
     /\ isopen' = [isopen EXCEPT ![b] = TRUE]
-    /\ highest' = IF SeedOnOpen /\ persisted[b] > highest THEN persisted[b] ELSE highest
-    /\ UNCHANGED <<phys, persisted, issuedEpoch, issuedBy, cmark>>
+    /\ LET seed == IF SeedFromBucketMark THEN persisted[b] ELSE (IF cmark[b] > dmark[b] THEN cmark[b] ELSE dmark[b]) IN
+       highest' = IF SeedOnOpen /\ seed > highest THEN seed ELSE highest
+    /\ UNCHANGED <<phys, persisted, issuedEpoch, issuedBy, cmark, dmark>>
 
 Act(kind, b, v) == [kind |-> kind, b |-> b, v |-> v]
 Next == /\ steps < MaxSteps
         /\ steps' = steps + 1
         /\ \/ \E v \in 0..K : Clock(v) /\ hist' = Append(hist, Act("clock", "-", v))
            \/ \E b \in Buckets : Now(b) /\ hist' = Append(hist, Act("now", b, 0))
+           \/ \E b \in Buckets : NowIn(b, TRUE) /\ hist' = Append(hist, Act("now", b, 1))
+           \/ \E b \in Buckets : DropC1(b) /\ hist' = Append(hist, Act("drop", b, 0))
            \/ Restart /\ hist' = Append(hist, Act("restart", "-", 0))
            \/ \E b \in Buckets : Open(b) /\ hist' = Append(hist, Act("open", b, 0))
            \/ \E b \in Buckets, lo \in BOOLEAN : Meta(b, lo) /\ hist' = Append(hist, Act("meta", b, IF lo THEN 1 ELSE 0))
 Spec == Init /\ [][Next]_vars
-View == <<highest, phys, isopen, persisted, issuedEpoch, issuedBy, cmark, steps>>
+View == <<highest, phys, isopen, persisted, issuedEpoch, issuedBy, cmark, dmark, steps>>
 
 (* C04 *)
 MaxOf(s) == IF Len(s) = 0 THEN 0 ELSE CHOOSE m \in {s[i] : i \in 1..Len(s)} : \A i \in 1..Len(s) : s[i] <= m
@@ -96,7 +111,9 @@ GenNext ==
                Meta(b, lo) /\ hist' = Append(hist, Act("meta", b, IF lo THEN 1 ELSE 0))
        ELSE IF r <= 2 THEN \E v \in {RandomElement(0..K)} : Clock(v) /\ hist' = Append(hist, Act("clock", "-", v))
        ELSE IF r <= 8 /\ \E b \in Buckets : isopen[b]
-            THEN \E b \in {RandomElement({x \in Buckets : isopen[x]})} : Now(b) /\ hist' = Append(hist, Act("now", b, 0))
+            THEN \E b \in {RandomElement({x \in Buckets : isopen[x]})}, c1 \in {RandomElement({FALSE, FALSE, TRUE})}, dr \in {RandomElement(1..8)} :
+                    IF dr = 1 THEN DropC1(b) /\ hist' = Append(hist, Act("drop", b, 0))
+                    ELSE NowIn(b, c1) /\ hist' = Append(hist, Act("now", b, IF c1 THEN 1 ELSE 0))
        ELSE IF r = 9 \/ \A b \in Buckets : isopen[b] THEN Restart /\ hist' = Append(hist, Act("restart", "-", 0))
        ELSE \E b \in {RandomElement({x \in Buckets : ~isopen[x]})} : Open(b) /\ hist' = Append(hist, Act("open", b, 0))
     /\ (steps' < MaxSteps \/ PrintT("BEHAVIOUR " \o ToJson(hist')))
